@@ -6,6 +6,10 @@ From TV Require Import Common.Harness C02.Model C02.Law C02.Dyn.
 Import ListNotations.
 Local Open Scope nat_scope.
 
+(* bool(d == p) / bool(d != p) for a freshly produced default d: against pool[j] on the right, pool[i] on the left,
+   another fresh default, itself *)
+Record fresh_tbl := mkFresh { f_row : list cmp; f_col : list cmp; f_other : cmp; f_self : cmp }.
+
 Record config := mkConfig {
   c_eq : list (list cmp);            (* bool(pool[i] == pool[j]) *)
   c_ne : list (list cmp);            (* bool(pool[i] != pool[j]) *)
@@ -14,12 +18,21 @@ Record config := mkConfig {
   c_kind : tkind;
   c_handlers : list handler;         (* registered before the history starts, in notifier-list order *)
   c_store_original : bool;
-  c_reacts : list (nat * reaction)   (* what handlers do to the notifier lists while they are being notified *)
+  c_reacts : list (nat * reaction);  (* what handlers do to the notifier lists while they are being notified *)
+  c_fresh : option (fresh_tbl * fresh_tbl)   (* Some (eq, ne): the default is produced afresh each time (identities 1000,
+                                                1001, ... in order of appearance); how such a value compares, as measured *)
 }.
 
 Definition tbl (m : list (list cmp)) (a b : val) : cmp := nth b (nth a m []) CRaise.
+Definition with_fresh_cmp (ft : option fresh_tbl) (t : val -> val -> cmp) (a b : val) : cmp :=
+  match ft with
+  | None => t a b
+  | Some f => if 1000 <=? a then (if 1000 <=? b then (if a =? b then f_self f else f_other f) else nth b (f_row f) CRaise)
+              else if 1000 <=? b then nth a (f_col f) CRaise else t a b
+  end.
 Definition env_of (c : config) : env :=
-  {| e_eq := tbl (c_eq c); e_ne := tbl (c_ne c);
+  {| e_eq := with_fresh_cmp (option_map fst (c_fresh c)) (tbl (c_eq c));
+     e_ne := with_fresh_cmp (option_map snd (c_fresh c)) (tbl (c_ne c));
      e_validate := fun v => nth v (c_validate c) None;
      e_default := c_default c; e_kind := c_kind c; e_handlers := c_handlers c;
      e_store_original := c_store_original c |}.
@@ -44,7 +57,10 @@ Fixpoint corr_hist (E : env) (once : list (nat * reaction)) (i : Z) (st : dstate
       ++ corr_hist E once (i + 1)%Z (dnext E once st o ob) r
   end.
 
+Definition start (cfg : config) : dstate :=
+  with_fresh (init (env_of cfg)) (match c_fresh cfg with Some _ => Some 1000 | None => None end).
+
 Definition corr_codes (c : case) : list Z :=
-  let '(cfg, h) := c in corr_hist (env_of cfg) (c_reacts cfg) 0%Z (init (env_of cfg)) h.
+  let '(cfg, h) := c in corr_hist (env_of cfg) (c_reacts cfg) 0%Z (start cfg) h.
 Definition law_codes (c : case) : list Z :=
-  let '(cfg, h) := c in dlaw_hist (env_of cfg) (c_reacts cfg) 0%Z (init (env_of cfg)) h.
+  let '(cfg, h) := c in dlaw_hist (env_of cfg) (c_reacts cfg) 0%Z (start cfg) h.
